@@ -60,6 +60,13 @@ PROPS = {
         'level': 'other',
         'explanation': 'dependencies() of every node kind are under contract (proved); topological_sort is decided by the bounded stand-in only',
     },
+    'C12': {
+        'modules': ['contracts.c12_legal', 'contracts.c04_model'],
+        'standins': ['legality'],
+        'trusted': PYVC_TRUST,
+        'assumptions': ['"g++ compiles it" has no contract formulation: bounded compile run', 'parser-side (prophy text) checks are exercised by the bounded stand-in'],
+        'level': 'proof',
+    },
     'C13': {
         'modules': ['contracts.c14_expr', 'contracts.c13_term'],
         'standins': ['prophyc_robust', 'isar_order'],
